@@ -1,3 +1,3 @@
 INIT Init
 NEXT Next
-INVARIANTS UniqueEnd MachineIsGrammar NoFaultNoError FaultIsReported RunAgrees Out
+INVARIANTS UniqueEnd MachineIsGrammar NoFaultNoError FaultIsReported RunAgrees Handoff Out
